@@ -30,10 +30,13 @@ Three kinds of comparison are made on every case:
        2 or 3 fields, any of ':' ' ' tab as separator, leading/trailing white space) return the exact
        sexagesimal value, the sign being that of the first field's first character.
  (C) Correspondence with the Lean model run by the driver at Float (failures are kind 'corr'):
-     Gen.C17.{havA,gcdNear,gcdFar,bear,translateRa,translateDec,dec2decNeg,ra2decScale,dmsD,…} are the
+     Gen.C17.{havA,gcdNear,gcdFar,gcdSelect,bear,translateRa,translateDec,dec2decPos,dec2decNeg,ra2decScale,dmsScaled,
+     hmsScaled,hmsWrapZ,dmsD,…} are the
      definitions regenerated from the source under test; this is the translator's validation.
      For the formatters the model input is n = round(|x|*360000) (resp. round(x*24000)), computed here
-     in exact rational arithmetic; inputs closer than TIE_BAND to a rounding tie are not compared.
+     in exact rational arithmetic; inputs closer than TIE_BAND to a rounding tie are not compared.  The whole
+     formatters are also run as GLUE over the regenerated pieces (driver op fmtx: non-finite guard, regenerated
+     scaled quantity, int(round(.)), regenerated wrap and fields, sign, format) directly on the double x.
  (P) The Lean Float model of the PINNED formatters (negation witness) is compared with a verbatim Python
      copy of the pinned code kept in this file.
 """
@@ -636,7 +639,7 @@ def judge_sexa(ctx, kind, xs, model=True):
     psite = 'dec2dec' if kind == 'dms' else 'ra2dec'
     scale = 360000 if kind == 'dms' else 24000
     half = 0.5 / scale
-    lines, meta = [], []
+    lines, meta, glue = [], [], []
     for x in xs:
         case = dict(kind=kind, x=x)
         try:
@@ -646,6 +649,7 @@ def judge_sexa(ctx, kind, xs, model=True):
             ctx.case(case)
             continue
         case['out'] = s
+        glue.append((x, s))
         nt = (kind, x) if (near_carry(x, 1 if kind == 'dms' else 1 / 15.0) or (kind == 'hms' and (x < 0 or x >= 360 - 1e-6))) else None
         if not math.isfinite(x):
             if s != 'XX:XX:XX.XX':
@@ -754,6 +758,20 @@ def judge_sexa(ctx, kind, xs, model=True):
             except Exception:
                 pass
         ctx.case(case, nontrivial_key=nt, sample_every=499)
+    # the whole formatter as glue over the regenerated pieces (scaled quantity, rounding, wrap, fields, sign, guard)
+    if model and ctx.driver_ok and glue:
+        gouts = ctx.driver.batch([f"fmtx {kind} {common.f2h(x)}" for x, _ in glue])
+        for (x, s_impl), g in zip(glue, gouts):
+            if math.isfinite(x):
+                q = (abs(Fraction(x)) if kind == 'dms' else Fraction(x)) * scale
+                if round_exact(q)[1] < Fraction(TIE_BAND):
+                    continue
+                if kind == 'dms' and g[1:] == '00:00:00.00' and s_impl[1:] == g[1:] and s_impl[:1] in '+-':
+                    g = s_impl          # the sign of an all-zero string is free
+            if g != s_impl:
+                ctx.fail('corr', dict(kind=kind, x=x, out=s_impl), f"{site}({x!r}) = {s_impl!r} but the glue over the regenerated pieces "
+                                                                  f"(Model.C17.dec2{kind}Glue) prints {g!r}", dict(site=site, what='glue-model'))
+            ctx.count(kind + ':glue-compared')
 
 
 MALFORMED = ['', '   ', 'abc', '12', '12:xx', 'x:1:2', '1:2:y', '12:', ':', '12::30', '+12:30', '-0:30:00', '-00 30',
